@@ -111,15 +111,34 @@ class MapShape:
                 v = b.get(p)
                 if v and v[0] == "expr" and isinstance(v[1], ast.Name):
                     setattr(self, attr, v[1].id)
-        # input map: dict built from the future factory's result
+        # input map: dict built from the future factory's result — initialised by a dict
+        # comprehension over a call of a function-valued parameter, or updated with one
+        # (possibly inside a nested helper that closes over the container)
         self.input_map = None
+
+        def from_factory(expr: ast.AST, scope: Def) -> bool:
+            for x in ast.walk(expr):
+                if isinstance(x, ast.DictComp):
+                    it = x.generators[0].iter
+                    if isinstance(it, ast.Call) and any(t.kind == "param" for t in self.repo.resolve_call(it, scope, scope.module)):
+                        return True
+            return False
+
+        self.helpers: dict[str, Def] = {k: v for k, v in d.children.items() if v.is_func}
         for name, v in self.containers.items():
-            if isinstance(v, ast.DictComp):
-                it = v.generators[0].iter
-                if isinstance(it, ast.Call) and any(
-                    t.kind == "param" for t in self.repo.resolve_call(it, d, d.module)
-                ):
-                    self.input_map = name
+            if from_factory(v, d):
+                self.input_map = name
+        if self.input_map is None:
+            for scope in [d] + list(self.helpers.values()):
+                sfl = flow_of(self.repo, scope)
+                for n in scope.own_nodes():
+                    if isinstance(n, ast.Call) and isinstance(n.func, ast.Attribute) and n.func.attr == "update" and isinstance(n.func.value, ast.Name) and n.func.value.id in self.containers and n.args:
+                        a = n.args[0]
+                        srcs = [a]
+                        if isinstance(a, ast.Name):
+                            srcs = [s_.value for ss in sfl.sites.values() for s_ in ss if s_.name == a.id and s_.value is not None]
+                        if any(from_factory(x, scope) for x in srcs):
+                            self.input_map = n.func.value.id
         need(self.input_map, "input map (future → input) not found")
         # twin map: another container that receives `X[<future>] = <future>` stores inside
         # the main loop (pairing of an original with its backup)
@@ -154,7 +173,7 @@ def _map_def(ctx: Ctx) -> Def:
     return ctx.repo.get(f"{A.RT_ASYNC}.async_map_unordered")
 
 
-@rule("MAP-MONO-1", props=["C08"], floor=3)
+@rule("MAP-MONO-1", props=["C08", "C07"], floor=3)
 def map_mono(ctx: Ctx) -> None:
     """bookkeeping containers read by key for in-flight tasks are never rebound inside the
     main loop (they only grow, or shrink by the processed task and its twin)"""
@@ -192,8 +211,11 @@ def map_mono(ctx: Ctx) -> None:
                     if not merges:
                         rebinds.append((nid, s))
         seen += 1
+        # the set of in-flight futures also carries C07's barrier: a stream that forgets
+        # futures is "drained" while their tasks are still writing
+        pr = ["C08", "C07"] if name == m.pending else ["C08"]
         if not rebinds:
-            ctx.ob(d, None, True, f"container `{name}` is never rebound inside the main loop", sel=f"mono:{name}")
+            ctx.ob(d, None, True, f"container `{name}` is never rebound inside the main loop", sel=f"mono:{name}", props=pr)
         for nid, s in rebinds:
             st = m.cfg.nodes[nid].stmt
             ctx.ob(
@@ -201,8 +223,9 @@ def map_mono(ctx: Ctx) -> None:
                 st,
                 False,
                 f"`{name}` is rebound inside the main loop (`{unparse(st, 70)}`): entries of tasks still "
-                "in flight are dropped, later lookups by those tasks fail",
+                "in flight are dropped" + (" — the map ends while those tasks are still running, so the next operation starts before its producers have finished" if name == m.pending else ", later lookups by those tasks fail"),
                 sel=f"mono:{name}",
+                props=pr,
             )
     ctx.need(seen >= 3, "fewer than 3 bookkeeping containers discovered")
 
@@ -221,6 +244,16 @@ def map_pair(ctx: Ctx) -> None:
         if not m.cfg.in_loop(nid, m.main.id):
             continue
         n_sites += 1
+        # futures produced by a nested helper: the pairing obligation moves into the helper
+        hcall = [a for a in n.args if isinstance(a, ast.Call) and isinstance(a.func, ast.Name) and a.func.id in m.helpers]
+        if hcall:
+            h = m.helpers[hcall[0].func.id]
+            for cont, label in ((m.input_map, "input map"), (m.start_map, "start-time map")):
+                if cont is None:
+                    continue
+                ok = _helper_registers(h, cont)
+                ctx.ob(d, n, ok, f"futures returned by helper `{h.name}` and added to `{m.pending}` are registered in the {label} `{cont}` inside the helper", sel=f"pair:{label}:helper:{h.name}")
+            continue
         new = {x.id for a in n.args for x in ast.walk(a) if isinstance(x, ast.Name)} - {m.pending}
         block = _block_of(d, m.cfg.nodes[nid].stmt)
         for cont, label in ((m.input_map, "input map"), (m.start_map, "start-time map")):
@@ -252,10 +285,27 @@ def map_pair(ctx: Ctx) -> None:
     init_ok = False
     for nid, sites in m.fl.sites.items():
         for s in sites:
-            if s.name == m.pending and s.kind == "assign" and not m.cfg.nodes[nid].loops and mentions_name(s.value, m.input_map):
-                init_ok = True
+            if s.name == m.pending and s.kind == "assign" and not m.cfg.nodes[nid].loops:
+                if mentions_name(s.value, m.input_map):
+                    init_ok = True
+                if isinstance(s.value, ast.Call) and isinstance(s.value.func, ast.Name) and s.value.func.id in m.helpers and _helper_registers(m.helpers[s.value.func.id], m.input_map):
+                    init_ok = True
     ctx.ob(d, None, init_ok, f"initial `{m.pending}` is derived from the input map `{m.input_map}`", sel="pair:init")
     ctx.need(n_sites >= 1, "no pending.add/update site in the main loop")
+
+
+def _helper_registers(h: Def, cont: str) -> bool:
+    """the nested helper stores what it returns into container `cont` (update / item store)"""
+    rets = [r for r in h.own_nodes() if isinstance(r, ast.Return) and r.value is not None]
+    if not rets:
+        return False
+    names = {x.id for r in rets for x in ast.walk(r.value) if isinstance(x, ast.Name)}
+    for n in h.own_nodes():
+        if isinstance(n, ast.Call) and isinstance(n.func, ast.Attribute) and n.func.attr in ("update", "setdefault") and isinstance(n.func.value, ast.Name) and n.func.value.id == cont and any(mentions_name(a, *names) for a in n.args):
+            return True
+        if isinstance(n, ast.Assign) and isinstance(n.targets[0], ast.Subscript) and isinstance(n.targets[0].value, ast.Name) and n.targets[0].value.id == cont and mentions_name(n.targets[0].slice, *names):
+            return True
+    return False
 
 
 def _block_of(d: Def, stmt: ast.AST) -> list[ast.stmt]:
